@@ -416,12 +416,55 @@ def _on_step(res, rng):
     def on_step(i, t, g, op, info):
         if rng.random() < 0.5:
             return None
-        return check_place(t, g, rng, res)
+        try:
+            return check_place(t, g, rng, res)
+        except Exception as e:
+            import traceback
+
+            tb = traceback.format_exc()
+            if "/vf/" in tb.strip().splitlines()[-2] if len(tb.strip().splitlines()) > 1 else False:
+                raise  # an error of the harness itself
+            # a read addressed inside the table raised: the forms do not address the same cells
+            return [(f"forms:raised:{type(e).__name__}", {"exc": repr(e), "tb": tb[-700:]})]
 
     return on_step
 
 
+def part_after_shrink(ctx, res):
+    """Forms compared right after a shrinking transformation (the sizes negative numbers count from have changed)."""
+    from ..oracles import tabxml
+
+    for c in range(12 if ctx.quick else 300):
+        rng = ctx.rng("shrink", c)
+        vals = TL.Vals()
+        recipe = TL.gen_recipe(rng, vals)
+        # trailing empty rows and cells to remove
+        recipe["rows"].append({"r": rng.choice([1, 2, 3]), "cells": []})
+        if rng.random() < 0.5:
+            recipe["rows"].append({"r": 1, "cells": [{"v": None, "r": rng.choice([1, 2])}]})
+        t = TL.build_table(recipe)
+        how = rng.choice(["optimize_width", "rstrip", "rstrip(aggressive)"])
+        case = {"kind": "after-shrink", "recipe": recipe, "how": how, "check_seed": [ctx.seed, ctx.shard, c]}
+        try:
+            if how == "optimize_width":
+                t.optimize_width()
+            else:
+                t.rstrip(aggressive=how != "rstrip")
+            w, rows = tabxml.expand(tabxml.parse(t.serialize(with_ns=True)))
+            g = TL.Grid([list(r) for r in rows], w)
+            if not (g.W and g.H):
+                continue
+            v = check_place(t, g, rng, res)
+        except Exception as e:
+            import traceback
+
+            v = [(f"forms:raised-after-{how}:{type(e).__name__}", {"exc": repr(e), "tb": traceback.format_exc()[-600:]})]
+        for m, d in (v or [])[:1]:
+            res.violation(m + f"@after-{how}", d, case)
+
+
 def run(ctx, res):
+    part_after_shrink(ctx, res)
     part_bijection(ctx, res)
     part_named_ranges(ctx, res)
     for c in range(CASES[ctx.tier]):
@@ -461,6 +504,20 @@ def replay(case):
         if back.table_name != tn or nr.table_name != tn:
             return [{"mechanism": "named-range:differs", "detail": {"table_name": tn, "ctor": nr.table_name, "reparse": back.table_name}}]
         return []
+    if case.get("kind") == "after-shrink":
+        from ..oracles import tabxml
+
+        seed, shard, c = case["check_seed"]
+        ctx = Ctx("C19", "quick", seed, shard, 16)
+        rng = ctx.rng("shrink", c)
+        t = TL.build_table(case["recipe"])
+        try:
+            t.optimize_width() if case["how"] == "optimize_width" else t.rstrip(aggressive=case["how"] != "rstrip")
+            w, rows = tabxml.expand(tabxml.parse(t.serialize(with_ns=True)))
+            v = check_place(t, TL.Grid([list(r) for r in rows], w), rng, res)
+        except Exception as e:
+            v = [(f"forms:raised-after-{case['how']}:{type(e).__name__}", {"exc": repr(e)})]
+        return [{"mechanism": m, "detail": d} for m, d in (v or [])]
     if case.get("kind") == "forms":
         seed, shard, c = case["check_seed"]
         ctx = Ctx("C19", "quick", seed, shard, 16)
@@ -471,7 +528,7 @@ def replay(case):
 
 
 MANIFEST = {
-    "text": "Exploration by runtime monitoring: the column-letter bijection is enumerated to 20000 against an independent implementation; on tables reached by generated histories every place is written in every coordinate form and passed to every method that takes coordinates, each answer being compared with the reference-model read of that rectangle (agreement between forms and correctness at once, both bounds of ranges); named ranges are written with every accepted table name up to length 3 over an alphabet with space, dot, apostrophe, dollar and non-ASCII and re-read from their own XML; renames are checked inside documents with decoy tables. Held = all answers agree on what was observed.",
+    "text": "Exploration by runtime monitoring: the column-letter bijection is enumerated to 20000 against an independent implementation; on tables reached by generated histories every place is written in every coordinate form and passed to every method that takes coordinates, each answer being compared with the reference-model read of that rectangle (agreement between forms and correctness at once, both bounds of ranges); named ranges are written with every accepted table name up to length 3 over an alphabet with space, dot, apostrophe, dollar and non-ASCII and re-read from their own XML; renames are checked inside documents with decoy tables; the forms are compared again right after a shrinking transformation (optimize_width, rstrip). Held = all answers agree on what was observed.",
     "note": "Trusted: O-GRID for rectangle reads, the independent column-letter function, the C07 name predicate for 'accepted table name'.",
     "technique": "runtime monitoring: reference-model comparison across all coordinate forms + re-reading of written addresses",
 }
